@@ -86,7 +86,8 @@ for pid,names in WANT.items():
             continue
         if not inv:
             # no invariant among the hypotheses (documented panics of `swap`): the tie on all states
-            out.append(f"theorem {n}_src{binders.rstrip()} :{stmt2.rstrip()} := by\n  rw [tie_swap_all]; exact {n} {args}")
+            lemma = "gen_swap_panics_i" if n.endswith("_i") else "gen_swap_panics_j"
+            out.append(f"theorem {n}_src{binders.rstrip()} :{stmt2.rstrip()} :=\n  {lemma} {args}")
             continue
         alts=[f"  | (rw [{rw}]; exact {n} {args})"]
         for D in ("RefinesL","Refines","Frames"):
